@@ -22,8 +22,41 @@ class Gen:
         self.decls = []          # sway source of struct / enum declarations
         self.n = 0
 
+    def named_struct(self, fs):
+        name = "S%d" % self.n; self.n += 1
+        self.decls.append("struct %s { %s }" % (name, ", ".join("f%d: %s" % (i, ty_src(t)) for i, t in enumerate(fs))))
+        return ("struct", name, fs)
+
+    def named_enum(self, vs):
+        name = "E%d" % self.n; self.n += 1
+        self.decls.append("enum %s { %s }" % (name, ", ".join("V%d: %s" % (i, ty_src(t)) for i, t in enumerate(vs))))
+        return ("enum", name, vs)
+
+    def wide_member(self):
+        """a member of 16, 24 or 32 bytes"""
+        r = self.rng
+        c = r.random()
+        if c < 0.35: return self.named_struct([(r.choice(["u64", "u64", "u32", "u16"]),) for _ in range(r.randint(2, 4))])
+        if c < 0.55: return self.named_enum(r.choice([[("u64",), ("unit",)], [("u64",), ("u32",), ("bool",)], [("tuple", [("u64",), ("u64",)]), ("u8",)]]))
+        if c < 0.80: return ("str", r.randint(9, 24))
+        if c < 0.90: return ("b256",)
+        return ("tuple", [("u64",), ("u64",)] + ([("bool",)] if r.random() < 0.5 else []))
+
+    def layout_struct(self, depth):
+        """a struct whose wide members start at word offsets 1, 2, 3 (mod 4) and cross slot boundaries"""
+        r = self.rng
+        fs = [(r.choice(["u64", "u64", "u32", "u16", "u8", "bool"]),) for _ in range(r.choice([1, 2, 3, 3, 5, 6, 7]))]
+        fs.append(self.wide_member())
+        for _ in range(r.randint(0, 2)):
+            fs.append((r.choice(["u64", "u8", "bool"]),) if r.random() < 0.5 else self.wide_member())
+        if depth > 0 and r.random() < 0.4:
+            fs.insert(r.randint(1, len(fs)), self.layout_struct(depth - 1))
+        return self.named_struct(fs)
+
     def ty(self, depth, allow_unit=False):
         r = self.rng
+        if depth >= 2 and r.random() < 0.3:
+            return self.layout_struct(1)
         k = r.random()
         if depth <= 0 or k < 0.45:
             c = r.random()
@@ -120,6 +153,34 @@ def size(t):
         return 8 + m
     raise ValueError(k)
 
+def al8(n): return (n + 7) // 8 * 8
+
+def members(t, maxdepth=3):
+    """[(path, member type, byte offset)] of the members reachable through named-struct field accesses"""
+    out = []
+    def walk(t, path, off, d):
+        if t[0] != "struct" or d == 0: return
+        o = off
+        for i, ft in enumerate(t[2]):
+            if size(ft) > 0:
+                out.append((path + [i], ft, o))
+                walk(ft, path + [i], o, d - 1)
+            o += al8(size(ft))
+    walk(t, [], 0, maxdepth)
+    return out
+
+def pick_members(rng, t, k):
+    ms = members(t)
+    crossing = [m for m in ms if (m[2] // 8) % 4 != 0 and (m[2] % 32) + size(m[1]) > 32]
+    inner = [m for m in ms if (m[2] // 8) % 4 != 0 and m not in crossing]
+    rest = [m for m in ms if m not in crossing and m not in inner]
+    for l in (crossing, inner, rest): rng.shuffle(l)
+    return (crossing[:k] + inner[:max(1, k // 2)] + rest[:1])[:k + 2]
+
+def member_at(t, v, path):
+    for i in path: t, v = t[2][i], v[1][i]
+    return t, v
+
 # ---------------------------------------------------------------- declarations
 NAMES = ["a", "ab", "abc", "b", "f", "foo", "foo_bar", "x", "x1", "val", "value", "s", "ns", "n", "k_1", "zz"]
 NSNAMES = ["ns1", "ns2", "n", "ns", "inner", "a", "ab", "m1"]
@@ -182,7 +243,22 @@ def fixed_decl(kind):
              "enum T0 { V0: (), V1: (), V2: () }", "struct S0 { f0: E0, f1: u64 }",
              "struct P0 { f0: u8, f1: bool, f2: u16, f3: (), f4: u32 }"]
     mk = lambda ns, name, key, ty, val: {"ns": ns, "name": name, "key": key, "ty": ty, "val": val}
+    u = ("u64",)
+    Q = ("struct", "Q0", [u, u])
+    R = ("struct", "R0", [u, u, u, Q])                      # Q: 16 bytes at word 3, crosses the slot boundary
+    O = ("struct", "O0", [u, ("b256",)])                    # 32 bytes at word 1
+    K = ("struct", "K0", [("u8",), Q, ("u32",)])            # 16 bytes at word 1, inside the slot
+    W = ("struct", "W0", [u, u, ("str", 17), R, E])         # 24 bytes at word 2; nested R at word 5
+    decls += ["struct Q0 { f0: u64, f1: u64 }", "struct R0 { f0: u64, f1: u64, f2: u64, f3: Q0 }", "struct O0 { f0: u64, f1: b256 }",
+              "struct K0 { f0: u8, f1: Q0, f2: u32 }", "struct W0 { f0: u64, f1: u64, f2: str[17], f3: R0, f4: E0 }"]
+    q = lambda a, b: ("tuple", [("int", a), ("int", b)])
+    rv = ("tuple", [("int", 1), ("int", 2), ("int", 3), q(44, 55)])
     fs = [
+        mk([], "rec", None, R, rv),
+        mk(["ns1"], "rec", None, R, ("tuple", [("int", 4), ("int", 5), ("int", 6), q(7, 8)])),
+        mk([], "owned", None, O, ("tuple", [("int", 9), ("int", 0x1111111111111111222222222222222233333333333333334444444444444444)])),
+        mk([], "packed", 0x4000, K, ("tuple", [("int", 5), q(66, 77), ("int", 88)])),
+        mk([], "wide", None, W, ("tuple", [("int", 10), ("int", 11), ("bytes", b"seventeen bytes!!"), rv, ("enum", 1, ("int", 99))])),
         mk([], "s", None, S, ("tuple", [("enum", 0, ("unit",)), ("int", 5)])),
         mk([], "s2", None, S, ("tuple", [("enum", 1, ("int", 9)), ("int", 6)])),
         mk([], "t", None, ("tuple", [E, E, ("u8",)]), ("tuple", [("enum", 0, ("unit",)), ("enum", 0, ("unit",)), ("int", 7)])),
@@ -201,7 +277,7 @@ def fixed_decl(kind):
         mk([], "w", None, ("u256",), ("int", (1 << 255) + 12345)),
         mk([], "st", None, ("str", 9), ("bytes", b"abcdefghi")),
     ]
-    return {"decls": decls, "fields": fs, "kind": "plain"}
+    return {"decls": decls, "fields": fs, "kind": "plain", "all_members": True}
 
 def source_order(fields):
     """fields in the order storage_src prints them (a namespace's own fields, then its sub-namespaces)"""
@@ -244,7 +320,13 @@ def contract_src(d):
         body = "let v = %s.read(); log(v);" % acc
         if is_ref(f["ty"]): body += " dump(v);"
         impl.append("    #[storage(read)] fn r%d() { %s }" % (i, body))
-    tests = "\n".join("#[test] fn t%d() { abi(A, CONTRACT_ID).r%d(); }" % (i, i) for i in range(len(fs)))
+    for k, (i, path) in enumerate(d.get("members", [])):
+        f = fs[i]
+        acc = "storage%s.%s%s" % ("".join("::" + n for n in f["ns"]), f["name"], "".join(".f%d" % j for j in path))
+        abi += "\n    #[storage(read)] fn m%d();" % k
+        impl.append("    #[storage(read)] fn m%d() { let v = %s.read(); log(v); }" % (k, acc))
+    tests = "\n".join(["#[test] fn t%d() { abi(A, CONTRACT_ID).r%d(); }" % (i, i) for i in range(len(fs))] +
+                      ["#[test] fn tm%d() { abi(A, CONTRACT_ID).m%d(); }" % (k, k) for k in range(len(d.get("members", [])))])
     return ("contract;\n\n%s\n\n%s\nabi A {\n%s\n}\n\nfn dump<T>(v: T) {\n    let p = __addr_of(v);\n    let s = __size_of::<T>();\n"
             "    asm(p: p, s: s) { logd zero zero p s; }\n}\n\nimpl A for Contract {\n%s\n}\n\n%s\n"
             % ("\n".join(d["decls"]), storage_src(fs), abi, "\n".join(impl), tests))
@@ -274,7 +356,17 @@ def case_coq(d, res):
             ";".join(ident_coq(n) for n in f["ns"]), ident_coq(f["name"]),
             "Some %d" % f["key"] if f["key"] is not None else "None", ty_coq(f["ty"]), val_coq(f["val"]), lg, dump))
     em = ";".join("(%d, %s)" % (int(k, 16), nlist(bytes.fromhex(v))) for k, v in (res.get("slots") or []))
-    return "(judge [%s] [%s] [%s] %d)" % (";".join(dg), ";\n ".join(items), em, impl)
+    mems = []
+    d["_mobs"] = []
+    for k, (i, path) in enumerate(d.get("members", [])):
+        t = tests.get("tm%d" % k)
+        logs = [r for r in (t["receipts"] if t else []) if r["k"] == "LogData"]
+        lg = "Some %s" % nlist(bytes.fromhex(logs[0]["data"])) if logs and t.get("passed") else "None"
+        d["_mobs"].append({"passed": t.get("passed") if t else None, "state": t.get("state") if t else None, "logs": [l["data"] for l in logs]})
+        mems.append("(%d%%nat, %s, %s)" % (i, ("[%s]%%nat" % ";".join(map(str, path))), lg))
+    return ("Definition dg : list (list byte * list byte) := [%s].\nDefinition fs : list jfield := [%s].\nDefinition em : list slot := [%s].\n"
+            "Eval vm_compute in (judge dg fs em %d).\nEval vm_compute in (judge_members dg fs em ([%s] : list jmember))."
+            % (";".join(dg), ";\n ".join(items), em, impl, ";\n ".join(mems)))
 
 def replay_of(d, res):
     return {"kind": d["kind"], "source": contract_src(d), "status": res.get("status"), "error": (res.get("error") or "")[:600],
@@ -283,6 +375,7 @@ def replay_of(d, res):
 
 DECL_CODES = {0: "slots-agree", 1: "slots-differ-but-read-back", 2: "slots-do-not-read-back", 5: "digest-miss", 8: "panic-predicted",
               9: "panic-unpredicted", 10: "build-error", 11: "model-panics-impl-does-not"}
+MEMBER_CODES = {0: "ok", 3: "vm-read-differs", 13: "no-value-observed", 7: "bad-path", 14: "model-read-differs", 15: "image-slice-differs"}
 FIELD_CODES = {0: "ok", 3: "vm-read-differs", 4: "memory-image-differs", 6: "overlaps", 7: "unsupported", 13: "no-value-observed"}
 
 def run(ctx):
@@ -303,6 +396,12 @@ def run(ctx):
         decls.append(gen_decl(ctx.rng, ctx.rng.randint(max(3, nf // 2), nf), kind))
     for d in decls:
         d["fields"] = source_order(d["fields"])
+        d["members"] = []
+        if d["kind"] == "plain":
+            for i, f in enumerate(d["fields"]):
+                if f["ty"][0] == "struct":
+                    d["members"] += [(i, p) for p, _, _ in (members(f["ty"]) if d.get("all_members") else pick_members(ctx.rng, f["ty"], 3))]
+            d["members"] = d["members"][:40]
     base = os.path.join(ctx.work, "pkgs")
     dirs = [sway.write_pkg(base, "c12_%d" % i, {"main.sw": contract_src(d)}, entry="main.sw") for i, d in enumerate(decls)]
 
@@ -320,13 +419,14 @@ def run(ctx):
         if r.get("status") == "harness_error":
             ctx.violation("harness-run", {"pkg": dirs[i], "out": r.get("error")}, "harness c12 failed to run", no_input=True)
             return
-    shards = ["Eval vm_compute in %s." % case_coq(d, r) for d, r in zip(decls, results)]
+    shards = [case_coq(d, r) for d, r in zip(decls, results)]
     try:
         res = coq.run_cases(ctx, "c12", "From SwayV Require Import Base.Util C12.Model C12.Spec C12.Judge.", shards)
     except RuntimeError as e:
         ctx.violation("model-eval", {"log": str(e)[-3000:]}, "C12 judge could not be evaluated (correspondence C12.slots_of not checked)", no_input=True)
         return
     hist, fhist, nfields, nslots = {}, {}, 0, 0
+    mhist, mshape, nmembers = {}, {}, 0
     for i, (d, r, rr) in enumerate(zip(decls, results, res)):
         codes = rr[0]
         dc, disj, fcs = codes[0], (codes[1] if len(codes) > 1 else None), codes[2:]
@@ -372,6 +472,27 @@ def run(ctx):
                 ctx.violation(fkey, dict(frep, correspondence="C12.mem_plain"), "memory image of the value read in the VM differs from the layout model", no_input=True)
             elif c in (6, 7):
                 ctx.violation(fkey, dict(frep, correspondence="C12.generator"), "generated field is %s for the judge" % FIELD_CODES[c], no_input=True)
+    for d, r, rr in zip(decls, results, res):
+        if d["kind"] != "plain" or len(rr) < 2: continue
+        rep = replay_of(d, r)
+        key = "decl_" + hashlib.sha256(storage_src(d["fields"]).encode()).hexdigest()[:12]
+        for k, ((i, path), c) in enumerate(zip(d["members"], rr[1])):
+            f = d["fields"][i]
+            mt, mv = member_at(f["ty"], f["val"], path)
+            acc = key_string(f) + "".join(".f%d" % j for j in path)
+            off = [o for p, _, o in members(f["ty"]) if p == path][0]
+            nmembers += 1
+            mhist[MEMBER_CODES.get(c, str(c))] = mhist.get(MEMBER_CODES.get(c, str(c)), 0) + 1
+            mshape[(off // 8 % 4, size(mt))] = mshape.get((off // 8 % 4, size(mt)), 0) + 1
+            mrep = dict(rep, member={"access": acc, "ty": ty_src(mt), "init": val_src(mt, mv)[:300], "byte_offset": off,
+                                     "word_offset_in_slot": off // 8 % 4, "size": size(mt), "observed": d["_mobs"][k]})
+            if c in (3, 13):
+                ctx.violation(key + "_" + acc, mrep, "partial read %s.read() (%d bytes at word %d of its slot): value read in the VM (%s) is not the initializer's member %s" % (
+                    acc, size(mt), off // 8 % 4, d["_mobs"][k], val_src(mt, mv)[:120]))
+            elif c in (14, 15):
+                ctx.violation(key + "_" + acc, dict(mrep, correspondence="C12.Members"), "model of the member read (%s) disagrees although the VM read is right" % MEMBER_CODES[c], no_input=True)
+            elif c == 7:
+                ctx.violation(key + "_" + acc, dict(mrep, correspondence="C12.generator"), "generated member path is not supported by the judge", no_input=True)
     kinds = {}
     def walk(t):
         kinds[t[0]] = kinds.get(t[0], 0) + 1
@@ -386,10 +507,12 @@ def run(ctx):
                          "SHA-256 is a Section variable: collision-free/spread only assumed on the key strings of each declaration, and checked on the real digests per case",
                          "fuel-vm SRWQ and std::storage read path are modelled (C12/Model.v read_quads), tied by in-VM reads",
                          "ABI encoding of the logged value (C09) used to compare the in-VM value with the initializer"],
-        "evaluations": nfields, "distinct_nontrivial": distinct,
-        "rule": "one evaluation = one storage field built, deployed with the emitted slots and read in the VM; non-trivial = reference-typed field larger than one word (struct/tuple/enum/str/b256/u256); distinct by (path, key, type, initializer)",
+        "evaluations": nfields + nmembers, "distinct_nontrivial": distinct,
+        "rule": "one evaluation = one storage field (or one nested struct member through the StorageKey field-access syntax) built, deployed with the emitted slots and read in the VM; non-trivial = reference-typed field larger than one word (struct/tuple/enum/str/b256/u256); distinct by (path, key, type, initializer)",
         "samples": [{"path": key_string(f), "ty": ty_src(f["ty"]), "init": val_src(f["ty"], f["val"])[:160]} for f in decls[2]["fields"][:4]] if len(decls) > 2 else [],
         "packages": len(decls), "emitted_slots": nslots, "decl_judgements": hist, "field_judgements": fhist, "type_nodes": kinds,
+        "member_reads": nmembers, "member_judgements": mhist,
+        "member_shapes_wordoffset_size": {"%d:%d" % k: v for k, v in sorted(mshape.items())},
         "explicit_keys": sum(1 for d in decls for f in d["fields"] if f["key"] is not None),
         "namespaced_fields": sum(1 for d in decls for f in d["fields"] if f["ns"]),
         "explanation": "Theorems (all well-typed constants of non-zero size, all keys whose range stays below 2^256): the slots the model of serialize_to_storage_slots emits read back, through the model of std's read_quads, as the initializer's memory image, for one field and for whole declarations with disjoint key ranges under any slot order; key strings are injective; implicit keys are H(0 :: key string); ranges are disjoint under the stated hash hypotheses and the decidable explicit-key side condition. Arrays are excluded (compiler panics: C17).",
